@@ -44,7 +44,10 @@ impl ConjecturedSecurity {
             query_security += options.grinding_factor();
         }
 
-        Self(cmp::min(cmp::min(field_security, query_security) - 1, collision_resistance))
+        Self(cmp::min(
+            cmp::min(field_security, query_security).saturating_sub(1),
+            collision_resistance,
+        ))
     }
 
     /// Returns the conjectured security level (in bits).
